@@ -437,3 +437,16 @@ Example C16_zlb_policies_admissible :
   zlb_choice f now (Some (Z.min prev (now + f_zlb f))) = Z.min prev (now + f_zlb f).
 Proof. exact zlb_policies_admissible. Qed.
 Print Assumptions C16_zlb_policies_admissible.
+
+(* END TO END (non-vacuity of C16_exactly_once_in_order + C16_quiescent_all_delivered on the real protocol): the L2TP
+   bring-up SCCRQ / SCCRP / SCCCN+ICRQ / ICRP / ICCN between a LAC (A) and an LNS (B) with the first SCCRP lost, the SCCRQ
+   retransmitted and the ICRQ duplicated by the network: every message reaches the peer's protocol machine exactly once,
+   in order, both queues drain, nobody declares dead.  The `e2e` case kind runs this exchange between two real Components
+   under every single and many double faults and compares with this model driven by runner_next. *)
+Example C16_bringup_end_to_end :
+  let s := run false (init_sys (0, 0, 0, 0, 16) (0, 0, 0, 0, 16) 0 0) bringup in
+  honest bringup = true /\
+  e_del (s_b s) = [1; 3; 4; 6] /\ e_sub (s_a s) = [1; 3; 4; 6] /\ e_del (s_a s) = [2; 5] /\ e_sub (s_b s) = [2; 5] /\
+  c_q (e_ch (s_a s)) = [] /\ c_q (e_ch (s_b s)) = [] /\ e_dead (s_a s) = 0%nat /\ e_dead (s_b s) = 0%nat.
+Proof. exact bringup_example. Qed.
+Print Assumptions C16_bringup_end_to_end.
